@@ -17,6 +17,11 @@ class Unsupported(Exception):
     """The verified code uses something outside the interpreted subset -> UNDECIDED."""
 
 
+class ScheduleDependence(Unsupported):
+    """a scalar that is carried from one iteration of an nb.prange loop to the next is read inside the loop: the
+    result depends on how numba distributes the iterations over threads (each thread starts from the initial value)"""
+
+
 class Opaque:
     """A value the engine does not model (loggers, backends, jit options ...).
 
